@@ -8,5 +8,5 @@ CONSTANTS
   NOrigs = {0, 1, 2, 3}
   Intfs = {"keep", "none", "direct", "recursive"}
   Gen = FALSE
-INVARIANTS TypeOK InvSuccessSound InvFailureReported InvNoRedundant InvUnpinIdempotent
+INVARIANTS TypeOK InvSuccessSound InvFailureReported InvNoRedundant InvLsTruthful InvUnpinIdempotent
   InvStallGivesUpAdd InvOriginsBestEffort InvCallReturns InvCancelPropagates InvUpdateOnlyIfRecursive InvSourceKept
